@@ -2885,13 +2885,15 @@ def mpf2multiword(dtype, x, p=None, max_length=None):
         bl1 = man1.bit_length()
         d = mask.bit_length() - bl1
         assert d >= 0
-        while d > 0 and offset >= d:
+        while d > 0 and offset > 0:
             # skip heading bytes that are zero for optimal compression
             # of bit data. In some cases, this reduces result length.
             # The bits shifted in may start with zeros as well, hence
-            # repeat until the leading bit of the word is set:
-            # otherwise the next word would overlap with this one.
-            offset -= d
+            # repeat until the leading bit of the word is set (or the
+            # lowest bit is reached): otherwise the next word would
+            # overlap with this one, or a word of zeros would end the
+            # loop although lower bits are left.
+            offset -= min(d, offset)
             man1 = (man & (mask << offset)) >> offset
             bl1 = man1.bit_length()
             d = mask.bit_length() - bl1
